@@ -137,7 +137,7 @@ struct variant {
 
 	template<typename F>
 	std::common_type_t<std::invoke_result_t<F, const T&>...> const_apply(F functor) const {
-		return apply_<F, 0>(std::move(functor));
+		return const_apply_<F, 0>(std::move(functor));
 	}
 
 private:
@@ -240,6 +240,25 @@ private:
 	template<typename F, size_t Index> requires (Index == sizeof...(T))
 	std::common_type_t<std::invoke_result_t<F, T&>...>
 	apply_(F) {
+		FRG_ASSERT(!"_apply() on variant with illegal tag");
+		__builtin_unreachable();
+	}
+
+	// apply a functor to the internal object of a const variant
+	template<typename F, size_t Index> requires (Index < sizeof...(T))
+	std::common_type_t<std::invoke_result_t<F, const T&>...>
+	const_apply_(F functor) const {
+		using value_type = _variant::get<Index, T...>;
+		if(tag_ == Index) {
+			return functor(get<value_type>());
+		} else {
+			return const_apply_<F, Index + 1>(std::move(functor));
+		}
+	}
+
+	template<typename F, size_t Index> requires (Index == sizeof...(T))
+	std::common_type_t<std::invoke_result_t<F, const T&>...>
+	const_apply_(F) const {
 		FRG_ASSERT(!"_apply() on variant with illegal tag");
 		__builtin_unreachable();
 	}
